@@ -50,6 +50,31 @@ pub async fn client_ka(addr: SocketAddr, ca: &[u8], id: &Identity, backoff: Back
     Ok(c)
 }
 
+/// the real client library with its identity given as a PEM bundle (leaf + `extra`)
+pub async fn client_bundle(addr: SocketAddr, ca: &[u8], id: &Identity, extra: &[u8]) -> Result<Client> {
+    let dir = certs::write_dir_bundle(ca, id, extra);
+    let c = selium::custom()
+        .keep_alive(5_000u64)?
+        .backoff_strategy(BackoffStrategy::constant().with_max_attempts(0))
+        .endpoint(&addr.to_string())
+        .with_certificate_authority(certs::p(&dir, "ca.der"))?
+        .with_cert_and_key(certs::p(&dir, "chain.pem"), certs::p(&dir, "localhost.key.der"))?
+        .connect()
+        .await?;
+    Ok(c)
+}
+
+/// start the real server from certificate files in `dir` (ca.der, localhost.der, localhost.key.der)
+pub fn start_server_from_dir(dir: &std::path::Path) -> Result<SocketAddr> {
+    let args = UserArgs::parse_from(["selium-server", "--bind-addr", "127.0.0.1:0", "--cert", &certs::p(dir, "localhost.der"), "--key", &certs::p(dir, "localhost.key.der"), "--ca", &certs::p(dir, "ca.der")]);
+    let server = Server::try_from(args)?;
+    let addr = server.addr()?;
+    tokio::spawn(async move {
+        let _ = server.listen().await;
+    });
+    Ok(addr)
+}
+
 pub async fn default_client(addr: SocketAddr, set: &CertSet) -> Result<Client> {
     client(addr, &set.ca, &set.client, BackoffStrategy::constant().with_max_attempts(0)).await
 }
